@@ -601,7 +601,7 @@ func (w *oracleWorkload) Observe(br *rig.BlockRecord) {
 
 func runOracle(run *ev.Run, c int) {
 	w := newOracleWorkload()
-	r := rig.New(rig.Options{Seed: fmt.Sprintf("or-%d-%d", run.Seed, c), NumAccounts: 8, Balances: sdk.NewCoins(sdk.NewInt64Coin(rig.BondDenom, 10_000_000)), InflationOff: true})
+	r := rig.New(rig.Options{Seed: fmt.Sprintf("or-%d-%d", run.Seed, c), NumAccounts: 8, Balances: sdk.NewCoins(sdk.NewInt64Coin(rig.BondDenom, 10_000_000)), InflationOff: true, SubSecond: c%2 == 1})
 	w.Attach(run, r)
 	r.Snapshot = func(ctx sdk.Context) any { return w.snapshot(ctx) }
 	blocks := tierN(run.Tier, 250, 900)
